@@ -1,6 +1,10 @@
 (* C09 - Feedback decoding attributes each acknowledgement to the right sent packet.
-   Statements only; proofs are in Proofs/FbAdapterProofs.v (cc adapter) and
-   Proofs/RtpfbProofs.v (rtpfb history).
+   Statements only; proofs are in Proofs/FbAdapterProofs.v (cc adapter).
+   The rtpfb half of the property (Model/RtpfbConvert.v, Model/RtpfbHistory.v:
+   each sent packet reported at most once, in send order, with the status the
+   latest feedback encodes) has NO theorem here: it is tied to the code
+   differentially and enforced on every generated history by the oracle
+   fb_spec_failures (codes 31-36) only.
    Vocabulary (Spec/FbSpec.v): [symbols cs] = the chunks expanded to one status
    symbol per offset; [arrival_at ref syms ds k] = reference time + the deltas of
    the delta-carrying symbols at offsets <= k; [decode_at e ...] = what offset k
